@@ -142,7 +142,8 @@ def _parse_body(c, body):
             elif f == "note":
                 c.notes.append(_const(call.args[0]))
             elif f == "case_split":
-                c.case_splits += call.args
+                for k, v in kw.items():
+                    c.case_splits.append((k, _const(v)))
             elif f == "fuel":
                 c.fuel = _const(call.args[0])
             elif f == "timeout":
